@@ -668,10 +668,16 @@ let reader_main file =
     incr i;
     (match toks with
      | "OPTNAMES" :: l :: _ -> optnames := String.split_on_char ',' l
-     | "RD" :: id :: ncmds :: cuts :: _slen :: trailing :: _ ->
+     | ("RD" | "RW") :: id :: ncmds :: cuts :: rest4 ->
          incr cases;
-         let ncmds = int_of_string ncmds in
+         let raw = (List.hd toks = "RW") in
+         let (trailing, rawstream) = (match raw, rest4 with
+                                      | true, st :: _ -> ("-", parse_tok st)
+                                      | false, _ :: tr :: _ -> (tr, "")
+                                      | _ -> ("-", "")) in
+         let ncmds = if raw then int_of_string ncmds - 1 else int_of_string ncmds in
          let gen = ref [] in
+         if not raw then
          for _ = 1 to ncmds do
            (match split_ws lines.(!i) with
             | "G" :: name :: na :: rest ->
@@ -682,7 +688,7 @@ let reader_main file =
            incr i
          done;
          let gen = List.rev !gen in
-         let stream = String.concat "" (List.map (fun (nm, args) ->
+         let stream = if raw then rawstream else String.concat "" (List.map (fun (nm, args) ->
                         sb (Reader.enc_cmd (bs nm) (List.map bs args))) gen) ^ parse_tok trailing in
          let cuts = if cuts = "-" then [] else List.map (fun x -> nat_of_int (int_of_string x)) (String.split_on_char ',' cuts) in
          (* implementation results *)
@@ -739,7 +745,11 @@ let reader_main file =
            let want = List.map (fun (nm, args) -> (tok_out (sb (Num.upper (bs nm))), List.map tok_out args)) gen in
            let got = List.map (fun (a, b, _) -> (a, b)) impl in
            let got_n = take (List.length want) got in
-           if got_n <> want then begin
+           if String.length !ierr >= 5 && String.sub !ierr 0 5 = "PANIC" then begin
+             incr specdiffs;
+             Printf.printf "SPECDIFF %s the reader panicked: %s\n" id !ierr
+           end;
+           if not raw && got_n <> want then begin
              incr specdiffs;
              ignore show;
              Printf.printf "SPECDIFF %s parsed commands differ from the commands sent (sent %d, parsed %d)\n" id
